@@ -2,7 +2,7 @@
 
 // Harness for C10 (cross-node frames and frame streams).
 //
-//	c10 -mode dec|rt|st -tier quick|thorough -seed N [-stats file] [-nogen] [corpus files…]
+//	c10 -mode dec|rt|st|fw -tier quick|thorough -seed N [-stats file] [-nogen] [corpus files…]
 //
 // Output: one line per case   "[K:<key> ]<case tokens> ## <observation tokens>".
 //
@@ -11,6 +11,7 @@
 //	st   two real FrameStreams over a loopback TCP pair (optionally through a re-chunking proxy):
 //	     Write/CloseWrite/Close on one end, interleaved with frames of other tunnels / other types
 //	     written by WriteFrame on the same connection; FrameStream.Read on the other end
+//	fw   the real runBidirectionalForward between a TCP application connection and a FrameStream
 //
 // Generators only produce case strings; one executor per mode runs case strings (so that the
 // corpus and replays go through the same code).
@@ -89,6 +90,8 @@ func runCase(c caseLine) (obs string) {
 		return execRt(toks)
 	case "st":
 		return execSt(toks)
+	case "fw":
+		return execFw(toks)
 	}
 	return "bad-case"
 }
@@ -122,7 +125,7 @@ func readCorpus(path string) []caseLine {
 }
 
 func main() {
-	mode := flag.String("mode", "dec", "dec | rt | st")
+	mode := flag.String("mode", "dec", "dec | rt | st | fw")
 	tier := flag.String("tier", "quick", "quick | thorough")
 	seed := flag.Uint64("seed", 1, "seed")
 	stats := flag.String("stats", "", "stats file")
@@ -148,11 +151,13 @@ func main() {
 			cases = append(cases, genRt(r, thorough)...)
 		case "st":
 			cases = append(cases, genSt(r, thorough)...)
+		case "fw":
+			cases = append(cases, genFw(r, thorough)...)
 		}
 	}
 	// dec/rt measure allocation with process-wide counters: they run on one goroutine.
 	par := 1
-	if *mode == "st" {
+	if *mode == "st" || *mode == "fw" {
 		par = *workers
 	}
 	obs := make([]string, len(cases))
